@@ -7,6 +7,7 @@ FUNCTIONS = ["Manager.freeze_tree", "Manager.unfreeze_tree", "Manager.register",
              "Manager.copy_expr_from", "ExprTask.__init__"]
 RAC = "rac/c17.py"
 RAC_BUDGET = {"quick": 60, "thorough": 900}
+RAC_MIN = {"quick": 2741, "thorough": 2741}      # fewer run-time evaluations than this = the harness skipped its work: checker broken, not "held"
 DESIGN_REF = "DESIGN.md section 4, C17"
 TECHNIQUE = ("contract-based deductive verification (pyvc VC generation from the real AST of every Manager mutator; "
              "frozen => raises ValueError with an empty frame, or returns with the graph unchanged; z3/cvc5) + run-time "
